@@ -6,3 +6,36 @@ package hash
 //@ func ComputeSHA3_256 mode int props C13 C09
 //@ requires result != nil
 //@ assigns *result
+
+// ---------------------------------------------------------------------------------------------
+// SP 800-185 encoders (KMAC). bebyte(v, m) is byte m (0 = most significant) of the 8-byte big-endian
+// representation of v, bytelen(v) the minimal number of bytes needed (at least 1).
+
+//@ func leftEncode mode int props C13 C09 tags purego
+//@ assigns nothing
+//@ ensures [length] len(result) == bytelen(value) + 1 && fresh(result)
+//@ ensures [count-first] result[0] == bytelen(value)
+//@ ensures [value-bytes] forall(k, 0, bytelen(value), result[1+k] == bebyte(value, 8 - bytelen(value) + k))
+//@ loop 1 invariant 1 <= i && i <= 8 && forall(k, 1, i, b[k] == 0) && forall(k, 0, 8, b[1+k] == bebyte(value, k))
+
+//@ func rightEncode mode int props C13 C09 tags purego
+//@ assigns nothing
+//@ ensures [length] len(result) == bytelen(value) + 1 && fresh(result)
+//@ ensures [count-last] result[bytelen(value)] == bytelen(value)
+//@ ensures [value-bytes] forall(k, 0, bytelen(value), result[k] == bebyte(value, 8 - bytelen(value) + k))
+//@ loop 1 invariant 0 <= i && i <= 7 && forall(k, 0, i, b[k] == 0) && forall(k, 0, 8, b[k] == bebyte(value, k))
+
+//@ func encodeString mode int props C13 C09 tags purego
+//@ assigns nothing
+//@ ensures [length] len(result) == bytelen(8*len(s)) + 1 + len(s) && fresh(result)
+//@ ensures [prefix] result[0] == bytelen(8*len(s)) && forall(k, 0, bytelen(8*len(s)), result[1+k] == bebyte(8*len(s), 8 - bytelen(8*len(s)) + k))
+//@ ensures [payload] forall(k, 0, len(s), result[bytelen(8*len(s)) + 1 + k] == s[k])
+
+//@ func bytepad mode int props C13 C09 tags purego
+//@ requires 0 < w && w < 65536
+//@ assigns nothing
+//@ ensures [multiple] len(result) % w == 0 && fresh(result)
+//@ ensures [minimal-padding] len(result) - (bytelen(w) + 1 + len(input)) < w && len(result) >= bytelen(w) + 1 + len(input)
+//@ ensures [prefix] result[0] == bytelen(w) && forall(k, 0, bytelen(w), result[1+k] == bebyte(w, 8 - bytelen(w) + k))
+//@ ensures [payload] forall(k, 0, len(input), result[bytelen(w) + 1 + k] == input[k])
+//@ ensures [zeros] forall(k, bytelen(w) + 1 + len(input), len(result), result[k] == 0)
